@@ -6,7 +6,7 @@ BASE = json.load(open("/root/.vp/BASELINE.json"))["cmd"] if os.path.exists("/roo
 
 TB = ("Trusted: Verus/Z3 (and rustc front end); prelude std specs (assume_specification), domain stand-in types, "
       "external_body stubs for collaborators/DBM/crypto listed per run in the evidence; mechanical extraction rules "
-      "E1-E15 (DESIGN.md 2.1) incl. the sequential projection of Mutex/Arc/Atomic (no interleavings).")
+      "E1-E18 (DESIGN.md 2.1) incl. the sequential projection of Mutex/Arc/Atomic (no interleavings).")
 
 CLAIMED = {
  "C19": dict(
@@ -82,6 +82,43 @@ CLAIMED.update({
         "under the stated preconditions, and those preconditions are discharged at every verified call site. Deadlock/poisoning by interleavings is not decidable with this technique.",
    note=TB + " Known findings F3, F7 reported on every run; F5, F12 fixed.",
    technique=VT, ref="4 C11"),
+})
+
+PT = ("Trusted: Verus/Z3 (and rustc front end); prelude std specs; the client DBM stub transcribing watchtower-plugin/src/dbm.rs SQL as ghost relations; "
+      "reqwest/serde_json as a nondeterministic oracle over the declared result types; ECDSA recovery uninterpreted; extraction rules E1-E18 incl. "
+      "the sequential projection of Arc<Mutex<WTClient>> (no interleavings) and async removal.")
+CLAIMED.update({
+ "C15": dict(
+   text="Deductive proof on the real text of the HTTP validators and error mapping (api::http::{register, add_appointment, get_appointment, get_subscription_info} bodies after body parsing, match_status, "
+        "parse_grpc_response / ApiError constructors) and of the internal gRPC handlers (api::internal PublicTowerServices::{register, add_appointment, get_appointment, get_subscription_info}): every request value of the "
+        "declared type yields either the documented reply or an error whose code is one of the documented ones and whose HTTP status is 4xx/503 (never 5xx, never the catch-all code); the handlers' unwraps "
+        "(locator length, appointment presence) are discharged from what the validators establish; a non-OK answer implies the Watcher/Gatekeeper state is unchanged (contracts of Watcher::* reused).",
+   note=TB + " NOT covered: warp routing/filters (method, path, content-length, JSON body parsing), tonic transport, serde: code behind macros and libraries - requests are quantified at the typed level "
+        "(every value of the request struct), not at the byte level. F1 (empty blob accepted) fixed by 5263709.",
+   technique=VT, ref="4 C15"),
+ "C20": dict(
+   text="Deductive proof on the real text of Config::{get_auth_method, verify, default} (Verus) and complete loop-free Kani proofs of Config::patch_with_options for the tower and the CLI over every presence/absence "
+        "combination of every option: each effective setting is the command-line value if given else the prior (file/default) value; overwrite_key / force_update are taken from the command line only; verify refuses unless "
+        "exactly one authentication method is complete and the network is one of the four known ones, and selects the network's default RPC port iff none was set.",
+   note=TB + " String contents are opaque tokens in the Kani harness (rule E17: String replaced by an opaque 8-byte token type, equality preserved); from_file (toml + serde defaults) is library code and not under contract: "
+        "'file over defaults' is covered only as 'prior value kept when the option is absent'.",
+   technique="contract-based deductive verification (Verus) + loop-free Kani harnesses over kani::any() (complete, no unwinding bound)", ref="4 C20"),
+ "C14": dict(
+   text="Deductive proof on the real text of net::http::{add_appointment, send_appointment, register (result handling)}, WTClient::{add_update_tower, flag_misbehaving_tower}, Retrier::run and the receipt "
+        "verification of teos-common (wire unit): an acknowledgement is returned as accepted only if its signature recovers to the tower id the request was addressed to; a signature that recovers to another key yields a "
+        "misbehaviour proof which is persisted and flags the tower, after which the retrier stops (permanent error) ; a signature that does not decode is a deserialize error, not a panic; a registration receipt is recorded "
+        "only if it strictly extends the known subscription, otherwise nothing changes; every unwrap/index/arithmetic in these functions is a discharged obligation for every value of the reply types.",
+   note=PT + " Reply bodies are quantified at the typed level (every ApiResponse<T> / RequestError value), not raw bytes: reqwest and serde_json are not under contract. F11 (malformed signature panicked) fixed by 6f3994b; "
+        "F10 (retrier unwrap on non-connection request errors) fixed by 4b1ac74. main.rs handlers are covered by the plugin_main unit when registered.",
+   technique=VT, ref="4 C14"),
+ "C18": dict(
+   text="Deductive proof on the real text of WTClient::{add_update_tower, add_appointment_receipt, add_pending_appointment, remove_pending_appointment, add_invalid_appointment, move_pending_appointment_to_invalid, "
+        "flag_misbehaving_tower, set_tower_status, remove_tower, get_tower_status}: the in-memory TowerSummary map mirrors the persisted relations after every mutator (mirror invariant: same towers, same pending/invalid sets, "
+        "status consistent with pending data / stored proof), every mutator touches only the addressed tower's rows (same_but frame over all seven relations), abandon deletes all and only that tower's rows, and a shared "
+        "appointment body is deleted exactly when no other pending/invalid reference remains.",
+   note=PT + " Reload after restart is covered through the mirror invariant and the DBM::load_towers stub contract (WTClient::new is async constructor glue, not under contract). F9 (a second record of the same kind for one "
+        "(tower, locator) hits a UNIQUE constraint and unwraps) is expressed as preconditions pre.no-duplicate-* and checked at the call sites under contract.",
+   technique=VT, ref="4 C18"),
 })
 
 NA = {
